@@ -51,6 +51,18 @@ def execute_here(prop_id, task):
     return _worker_execute((prop_id, task, 3600))
 
 
+def execute_in_fresh_fork(prop_id, task, timeout=1800):
+    """One task in a process forked for it alone: whatever an earlier execution left behind in process-wide state of
+    the system under simulation (a mutated module-level object, a floating-point mode) cannot decide the outcome, so
+    what minimisation keeps also replays in a fresh interpreter."""
+    ctx = multiprocessing.get_context("fork")
+    with concurrent.futures.ProcessPoolExecutor(max_workers=1, mp_context=ctx) as pool:
+        try:
+            return pool.submit(_worker_execute, (prop_id, task, timeout)).result()
+        except concurrent.futures.process.BrokenProcessPool as exc:
+            return {"status": "harness_error", "violations": [], "error": "worker died: %r" % (exc,)}
+
+
 def load_known_findings():
     try:
         with open(KNOWN_FINDINGS) as f:
@@ -93,7 +105,7 @@ def minimise(prop_id, prop, task, violation, budget=30):
     def still_fails(candidate):
         nonlocal used
         used += 1
-        summary = execute_here(prop_id, candidate)
+        summary = execute_in_fresh_fork(prop_id, candidate)
         for v in summary.get("violations", []):
             if signature_of(v) == want:
                 return v
